@@ -361,6 +361,9 @@ pub fn run(ctx: &Ctx) -> Report {
     report.absorb(r);
     report.assume("nesting depth of generated inputs ≤ 8 (the property is bounded in nesting depth)");
     report.assume("in-process rendering of ariadne reports into a buffer follows the same code path as the CLI's eprint");
+    if ctx.tier == Tier::Thorough && std::env::var_os("VERIF_NO_FUZZ").is_none() {
+        crate::fuzzrun::campaign(ctx, "C10", 300_000, &mut report);
+    }
     report
 }
 
